@@ -308,6 +308,14 @@ def install(world):
             else:
                 yield st1, NONE_SV
 
+    def re_escape(ex, st, args, kwargs, fr):
+        a = args[0]
+        if a.is_py:
+            yield st, mk(re.escape(a.py))
+        else:
+            yield st, SV(ex.uf('re_escape', StrS, StrS)(ex.term(a, 'S')), STR)
+
+    world.specfuncs['ext:re.escape'] = re_escape
     world.specfuncs['ext:re.match'] = re_match
     world.specfuncs['ext:re.search'] = re_search
 
